@@ -82,6 +82,8 @@ func genSrvReq(g *simrt.Tape) *ReqSc {
 			it.Ext = "plain"
 		case 4:
 			it.Op = "discover"
+		case 5:
+			it.Op = "unknown"
 		}
 		rs.Items = append(rs.Items, it)
 	}
